@@ -61,6 +61,52 @@ def loop_exit_census(ctx: Ctx):
                         required="a loop the obligations quantify over visits every element (an unconditional break / return in its body leaves after the first)")
 
 
+# Element-dependent loop skips (`for x in xs: if test(x): continue`) confirmed by reading, per function: how many
+# distinct ones there are.  Rules over python-level functions compare guards and see such a skip; rules over hardware
+# `elaborate` functions enumerate static configurations and would take "this element is skipped" for one more
+# configuration.  A skip beyond the confirmed ones is therefore an idiom the pack has not been validated against:
+# the analysis stops (exit 2), it neither passes nor reports a violation.
+CONFIRMED_ELEMENT_SKIPS = {
+    "TransactionManager._ready_dependencies": 1,  # relations that are not ready dependencies
+    "TransactionManager._conditionally_called": 1,  # the body enclosing the one being visited (F31)
+    "TransactionManager._simultaneous": 1,  # groups without a caller of a member's enclosing body (F29)
+    "MethodMock.output_process": 1,  # frozen mock / disabled method
+    "TaggedCounter.__init__": 1,  # negative tags are rejected before (raise), the skip is the non-negative test
+    "make_logging_process": 1,  # records whose trigger is low
+}
+
+
+def _no_obj_ids(t):
+    if isinstance(t, tuple):
+        if len(t) == 2 and t[0] == "obj":
+            return ("obj", 0)
+        return tuple(_no_obj_ids(x) for x in t)
+    return t
+
+
+def element_skip_census(ctx: Ctx):
+    from . import stage
+    from .term import canon_binders, subterms, tstr
+
+    found: dict = {}
+    for func, exs in stage.EXTRACTED:
+        for ex in exs:
+            for f in ex.facts:
+                fors = [k for k, fr in enumerate(f.frames) if fr[0] == "for"]
+                if not fors:
+                    continue
+                for k, fr in enumerate(f.frames):
+                    if fr[0] == "py" and len(fr) > 3 and fr[3] == "skip" and k > fors[0]:
+                        binders = {b for j in fors if j < k for b in f.frames[j][1]}
+                        if any(s in binders for s in subterms(fr[1])):
+                            found.setdefault(func.qualname, {})[fr[4] if len(fr) > 4 else canon_binders(_no_obj_ids(fr[1]))] = (func.site, fr[1])
+    for q, tests in found.items():
+        if len(tests) > CONFIRMED_ELEMENT_SKIPS.get(q, 0):
+            site, t = next(iter(tests.values()))
+            raise AnalysisError(f"{ctx.prop}.element-skip", site, f"{q}: {len(tests)} element-dependent loop skip(s) (if {tstr(t)[:80]}: continue), "
+                                f"{CONFIRMED_ELEMENT_SKIPS.get(q, 0)} confirmed - the rules of this pack have not been validated against a loop that skips elements")
+
+
 def run_rules(prop: str, tier: str, overrides: Optional[dict] = None) -> Ctx:
     mod = load_rules(prop)
     extra = tuple(getattr(mod, "EXTRA_DIRS_THOROUGH", ())) if tier == "thorough" else ()
@@ -72,6 +118,7 @@ def run_rules(prop: str, tier: str, overrides: Optional[dict] = None) -> Ctx:
         stage.EXTRACTED.clear()
         mod.check(ctx)
         loop_exit_census(ctx)
+        element_skip_census(ctx)
     except AnalysisError as e:
         note_missing(ctx, e)
         e.ctx = ctx  # type: ignore[attr-defined]
@@ -172,6 +219,7 @@ def main(argv: list[str]) -> int:
         stage.EXTRACTED.clear()
         mod.check(ctx)
         loop_exit_census(ctx)
+        element_skip_census(ctx)
         extra = {}
         if a.tier == "thorough":
             extra["sensitivity"] = sensitivity_pass(prop, repo)
